@@ -27,3 +27,10 @@ def uf_act_ret(action, node, params, kwparams) -> 'Val':
 
 def uf_act_fails(action, node, params, kwparams) -> 'bool':
     raise NotImplementedError
+
+
+def spec_cfg_same_but_semantics(a, b):
+    """two configurations (fixed-field view) that differ at most in `semantics`"""
+    return (a.left_recursion == b.left_recursion and a.memoization == b.memoization and a.prune_memos_on_cut == b.prune_memos_on_cut
+            and a.parseinfo == b.parseinfo and a.ignorecase == b.ignorecase and a.trace == b.trace and a.keywords == b.keywords
+            and a.heart == b.heart)
